@@ -1,0 +1,24 @@
+//go:build verif
+
+package httpserver
+
+import (
+	"net/http"
+
+	"github.com/tmpim/casket"
+)
+
+// VerifHTTPServer returns the http.Server a Server runs (verification builds only).
+func VerifHTTPServer(s *Server) *http.Server { return s.Server }
+
+// VerifHTTPServersOf returns the effective http.Server of every HTTP listener of a
+// running instance, in listener order (verification builds only).
+func VerifHTTPServersOf(inst *casket.Instance) []*http.Server {
+	var out []*http.Server
+	for _, cs := range casket.VerifC17Servers(inst) {
+		if s, ok := cs.(*Server); ok {
+			out = append(out, VerifHTTPServer(s))
+		}
+	}
+	return out
+}
